@@ -371,6 +371,13 @@ fn expiry(ctx: &Ctx) {
                 if cache.get("/a", 0).is_some() {
                     results.lock().unwrap().push(fail!("expired-entry-served", "entry still served {} ms after being stored with time limit {} s", tl * 1000 + 1100, tl));
                 }
+                // storing the *same* bytes again after the entry went stale makes them retrievable again too
+                cache.set("/a", 0, b"hello".to_vec(), MimeType::TextPlain);
+                let t0 = now_s();
+                let g = cache.get("/a", 0).map(|i| i.data.clone());
+                if g.as_deref() != Some(b"hello") && !(tl == 0 && now_s() != t0) {
+                    results.lock().unwrap().push(fail!("not-retrievable-after-set", "an entry stored again with the same bytes after it had gone stale (time limit {} s) is not retrievable right after the store", tl));
+                }
                 // a fresh set is retrievable again
                 cache.set("/a", 0, b"world".to_vec(), MimeType::TextPlain);
                 let t0 = now_s();
